@@ -243,3 +243,45 @@ Example C12_ex_lazy_skips_rows :
           [(mkpos 1 1 None, true); (mkpos 10 1 None, false); (mkpos 100 1 None, true)]
   = [[ [((1, None), 1)] ]; []; [ [((1, None), 101)] ]].
 Proof. reflexivity. Qed.
+
+(* ---- tie by translation: the SOURCE of the `balance` column accessor (the function behind
+   PostingsTable.columns['balance'], taken from the live column object) and of Row.__init__, translated into PyMini on
+   every run (Gen/SrcLedgerBalance.v), computes [balance_col] / [row_init] - for every Row state (rowid, running
+   inventory, memo) and posting.  The Row is the receiver; its attributes are [rowst_fields st posting entry]
+   (Model/PrimsLedger.v); Inventory.add_position is Model/Inventory.add_position on the encoded values. ---- *)
+From Coq Require Import String.
+From Verif Require Import Base.PyValue Model.PyMini Model.PrimsLedger Gen.SrcLedgerBalance Proofs.SrcLedgerBalance.
+
+Theorem C12_source_balance : forall (call_ref : nat -> list pv -> pv) (ext : string -> list pv -> PyMini.res pv)
+    (st : rowst) (p : position) (ent : pv),
+  call_method call_ref (prims_ledger SrcLedgerBalance.refs ext) src_balance
+              (rowst_fields st (Inv.enc_position p) ent) [] =
+  Ok (rowst_fields (fst (balance_col st p)) (Inv.enc_position p) ent, Inv.enc_inv (snd (balance_col st p))).
+Proof. exact balance_src. Qed.
+Print Assumptions C12_source_balance.
+
+Theorem C12_source_row_init : forall (call_ref : nat -> list pv -> pv) (ext : string -> list pv -> PyMini.res pv)
+    (es o : pv),
+  call_method call_ref (prims_ledger SrcLedgerBalance.refs ext) src_row_init row_class_attrs [es; o] =
+  Ok (rowst_fields row_init PNone PNone, PNone).
+Proof. exact row_init_src. Qed.
+Print Assumptions C12_source_row_init.
+
+(* the encodings the primitive add_position decodes are invertible *)
+Theorem C12_source_encoding : forall (i : inventory) (p : position),
+  Inv.dec_inv (Inv.enc_inv i) = Some i /\ Inv.dec_position (Inv.enc_position p) = Some p.
+Proof. exact (fun i p => conj (dec_enc_inv i) (dec_enc_position p)). Qed.
+Print Assumptions C12_source_encoding.
+
+(* the translated accessor run twice on one row, then on the next row: miss, hit, miss *)
+Example C12_source_balance_example :
+  let p := mkpos 5 1 None in
+  let f0 := rowst_fields (mkrow 1 [] None) (Inv.enc_position p) PNone in
+  let f1 := rowst_fields (mkrow 1 [((1, None), 5)] (Some (1, [((1, None), 5)]))) (Inv.enc_position p) PNone in
+  let f2 := rowst_fields (mkrow 2 [((1, None), 5)] (Some (1, [((1, None), 5)]))) (Inv.enc_position p) PNone in
+  let run := call_method (fun _ _ => PNone) (prims_ledger SrcLedgerBalance.refs (fun _ _ => Stuck)) src_balance in
+  run f0 [] = Ok (f1, Inv.enc_inv [((1, None), 5)]) /\
+  run f1 [] = Ok (f1, Inv.enc_inv [((1, None), 5)]) /\
+  run f2 [] = Ok (rowst_fields (mkrow 2 [((1, None), 10)] (Some (2, [((1, None), 10)]))) (Inv.enc_position p) PNone,
+                  Inv.enc_inv [((1, None), 10)]).
+Proof. vm_compute. repeat split; reflexivity. Qed.
